@@ -109,6 +109,7 @@ Definition val_encodable (f : tfield) (v : tval) : Prop :=
   | FOther, VBytes b => zlen b <= 65535
   | FGposStr, VBytes b => zlen b <= 255
   | FKeyRec, VKey f p a _ _ => 0 <= f <= 65535 /\ 0 <= p <= 255 /\ 0 <= a <= 255
+  | FWksProto, VInt z => 0 <= z <= 255
   | _, _ => True
   end.
 
@@ -169,7 +170,7 @@ Qed.
 Theorem parse_field_encodable c f st raw st' v :
   parse_field c f st = Ok (raw, st') -> ctor_field f raw = Ok v -> val_encodable f v.
 Proof.
-  destruct f as [maxv| |tokmax ctormax ne| | |sc| |v6| | | | | |k| |maxc| |en| | | | |bmax| | | |ipsec| | | | | |]; cbn [parse_field]; intros H Hc.
+  destruct f as [maxv| |tokmax ctormax ne| | |sc| |v6| | | | | |k| |maxc| |en| | | | |bmax| | | |ipsec| | | | | | | | |]; cbn [parse_field]; intros H Hc.
   - unfold get_uint, as_uint in H.
     destruct (get_unescaped st) as [[t s1]| |]; cbn [bind fst snd] in H; try discriminate.
     destruct (as_int t 10) as [z| |]; cbn [bind fst snd] in H; try discriminate.
@@ -257,6 +258,13 @@ Proof.
     destruct (get_string st 0) as [[t s1]| |]; cbn [bind fst snd] in H; try discriminate. inversion H; subst.
     cbn [ctor_field] in Hc. destruct (utf8_encode t) as [e| |]; cbn [bind] in Hc; try discriminate.
     destruct (zlen e >? 255) eqn:E; try discriminate. inversion Hc; subst. cbn [val_encodable]. lia.
+  - destruct v; exact Logic.I.
+  - (* FWksProto *)
+    destruct (get_string st 0) as [[t s1]| |]; cbn [bind fst snd] in H; try discriminate.
+    destruct (negb (is_nil t) && forallb is_decimal t); try discriminate. inversion H; subst.
+    cbn [ctor_field] in Hc. destruct ((dec_value t 0 <? 0) || (dec_value t 0 >? 255)) eqn:E; try discriminate.
+    inversion Hc; subst. cbn [val_encodable]. lia.
+  - destruct v; exact Logic.I.
   - destruct v; exact Logic.I.
   - (* FKeyRec *)
     unfold key_from_text in H.
